@@ -117,6 +117,7 @@ def regen (p : Plan) (s : S) : S × Out :=
 def runActs (p : Plan) : List Act → S → S × Out
   | [], s => (s, .ok)
   | a :: rest, s =>
+    if !s.hasSess then (s, .exc) else       -- `cherrypy.session` proxies serving.session: AttributeError
     let (s1, o) := match a with
       | .touch => touch p s
       | .acquire => (acquireLock s, .ok)
@@ -169,7 +170,7 @@ def runAct (p : Plan) (h : Hook) (s : S) : S × Out :=
   match h.act with
   | .user => (s, h.out)
   | .init => ({ s with hasSess := true }, .ok)
-  | .lock => (acquireLock s, .ok)
+  | .lock => if s.hasSess then (acquireLock s, .ok) else (s, .exc)   -- AttributeError: no serving.session
   | .save => saveHook p s
   | .close => closeHook s
   | .sessSave => sessionSave p s
@@ -216,11 +217,15 @@ def toolEnd (s : S) : List Hook :=
 
 def isHttp (o : Out) : Bool := o = .http || o = .redirect
 
-/-- `_do_respond` from before_request_body on -/
-def doRespond (p : Plan) (s : S) : S × Out :=
+/-- `_do_respond` up to the page handler: before_request_body, (body.process), before_handler -/
+def preHandler (p : Plan) (s : S) : S × Out :=
   let (s, o) := runPoint p (p.brb ++ toolBRB p.mode) s
   if o ≠ .ok then (s, o) else
-  let (s, o) := runPoint p (p.bh ++ toolBH p.mode) s
+  runPoint p (p.bh ++ toolBH p.mode) s
+
+/-- `_do_respond` from before_request_body on -/
+def doRespond (p : Plan) (s : S) : S × Out :=
+  let (s, o) := preHandler p s
   if o ≠ .ok then (s, o) else
   let s := s.obs 'H'
   let (s, o) := runActs p p.acts s
@@ -255,6 +260,9 @@ def wellBehavedFrom : Bool → List Act → Bool
   | l, .regen :: rest => wellBehavedFrom l rest
 
 def wellBehaved (p : Plan) : Bool := wellBehavedFrom (p.mode != .explicit) p.acts
+
+/-- the same, relative to the lock state the handler really starts in -/
+def wellBehavedRun (p : Plan) : Bool := wellBehavedFrom (preHandler p {}).1.locked p.acts
 
 def userOnly (hs : List Hook) : Bool := hs.all fun h => h.act == .user
 
